@@ -68,16 +68,21 @@ def specialCharIsLower (sc : Str) : Bool :=
 
 /-- the `for char, brace_level in scan_bibtex_string(string)` loop of `is_von_name`
 (a brace-level-0 token is one character, so `char.isalpha()` / `char.islower()` are the
-single-character tests) -/
-def vonScan : List Tok → Bool
-  | [] => false
-  | (t, l) :: r =>
+single-character tests).  After the repair C04-3 a brace-level-1 item that starts with a backslash
+counts as a special character only when it directly follows the item `('{', 1)` of the brace that
+opens its group (`afterOpen` = `previous == ('{', 1)`): a backslash further inside an ordinary
+group, which the scanner hands out as an item of its own, is passed over like the rest of the group. -/
+def vonScanFrom : Bool → List Tok → Bool
+  | _, [] => false
+  | afterOpen, (t, l) :: r =>
     if l = 0 ∧ (t ≠ [] ∧ t.all isAlphaN) then t.all isLowerN
-    else if l = 1 ∧ startsWithBackslash t then specialCharIsLower t
-    else vonScan r
+    else if l = 1 ∧ startsWithBackslash t ∧ afterOpen = true then specialCharIsLower t
+    else vonScanFrom (decide (t = ['{'] ∧ l = 1)) r
 
-/-- `is_von_name` (after the repair C04-1: `too many nested braces` from the scanner is caught,
-the token then has no case). -/
+def vonScan (toks : List Tok) : Bool := vonScanFrom false toks
+
+/-- `is_von_name` (after the repairs C04-1: `too many nested braces` from the scanner is caught,
+the token then has no case; and C04-3: see `vonScanFrom`). -/
 def isVonName (tok : Str) : Except NameErr Bool :=
   match tok with
   | [] => .error .indexError
